@@ -181,6 +181,36 @@ def cases(draw: st.DrawFn) -> dict:
     return {"env": env, "methods": methods, "calls": calls}
 
 
+_ZONED = [{"k": "ts", "unit": u, "tz": "UTC"} for u in ("s", "ms", "us")]
+
+
+@st.composite
+def unrepresentable_cases(draw: st.DrawFn) -> dict:
+    """One method, one leaf-typed parameter (every scalar width / temporal unit / zoned timestamp / decimal / fixed
+    binary / enum), one in-domain call and one call carrying a value of each unrepresentable kind for that type: every
+    (type, kind of bad value) class is reached in every run instead of once in a few hundred general cases."""
+    ch = G._choose
+    env: dict[str, Any] = {"enums": [G.gen_enum_spec(draw, 0)], "dcs": []}
+    base = dict(ch(draw, [*G._PLAIN_SCALARS, *G._WIDE_SCALARS, *_ZONED, *_ZONED, {"k": "enum", "e": 0}, {"k": "list", "of": {"k": "int"}}]))
+    t = {"k": "opt", "of": base} if G._chance(draw, 1, 4) else base
+    params = [{"name": "a", "t": t}]
+    if G._chance(draw, 1, 3):
+        params.append({"name": "b", "t": {"k": "int"}})
+    m = {"name": "m0", "params": params, "ret": 0, "kwonly": G._chance(draw, 1, 4)}
+    zoned = base["k"] == "ts" and base.get("tz")
+    offs = [0, 330, -300, 60, -720, 840, 1]
+    calls: list[dict] = [{"m": 0, "args": {p["name"]: G.gen_value(draw, p["t"], env) for p in params}}]
+    if zoned:
+        calls[0]["tzoff"] = ch(draw, offs)
+    opts = [o for o in _bad_options(t) if o["kind"] != "missing"]
+    for o in ([] if not opts else [ch(draw, opts)] if len(opts) < 3 else [ch(draw, opts), ch(draw, opts)]):
+        c: dict[str, Any] = {"m": 0, "args": {p["name"]: G.gen_value(draw, p["t"], env) for p in params[1:]}, "bad": {"p": "a", **o}}
+        if zoned:
+            c["tzoff"] = ch(draw, offs)
+        calls.append(c)
+    return {"env": env, "methods": [m], "calls": calls}
+
+
 # --------------------------------------------------------------------------- evaluation
 
 
@@ -390,4 +420,5 @@ def run_thorough(case: dict) -> Outcome:
 
 def main(chk: Check) -> None:
     chk.explore("echo", cases(), run_case, quick=700, thorough=10000)
+    chk.explore("unrepresentable", unrepresentable_cases(), run_case, quick=300, thorough=5000)
     chk.explore("echo_all_transports", cases(), run_thorough, quick=60, thorough=2400)
